@@ -8,6 +8,7 @@ struct InstrOpts {
     bool torture = false;     // add the TORTure commands (C01)
     int tb = 17;              // exact size of caller buffers handed to the library by the torture handler
     int variant = 0;          // rotates which typed reader the torture handler applies to which parameter
+    int pad_before = 0;       // this many further (never addressed) entries in front of the instrument's own: a table the size of a large instrument's
 };
 
 void instrument_install(World &w, const InstrOpts &o);
